@@ -523,6 +523,21 @@ pub fn check(case: &Case, st: &mut Stats) -> CheckResult {
   Ok(())
 }
 
+fn stage_opts() -> SrcOpts {
+  let mut opts = SrcOpts::all_langs().with_errors();
+  opts.max_bytes = 900;
+  opts.max_muts = 2;
+  opts.synth_weight = 4;
+  opts
+}
+
+/// the same stage, driven by bytes (coverage-guided tier)
+pub fn erased() -> crate::fuzz::Erased {
+  let corpus: &'static Corpus = Box::leak(Box::new(Corpus::load()));
+  let opts: &'static SrcOpts = Box::leak(Box::new(stage_opts()));
+  crate::fuzz::Erased::generic("C01", "library", move || strategy(opts), move |c, st| interpret(corpus, opts, c, st), check)
+}
+
 pub fn run(cfg: &RunCfg) -> i32 {
   let mut report = Report::new(
     cfg,
@@ -540,14 +555,12 @@ pub fn run(cfg: &RunCfg) -> i32 {
   let corpus = Corpus::load();
   crate::replay_known_staged::<Case>(&mut report, &known, "cli", false, check);
   crate::replay_known_staged::<crate::c01cli::Case>(&mut report, &known, "cli", true, crate::c01cli::check);
-  let mut opts = SrcOpts::all_langs().with_errors();
-  opts.max_bytes = 900;
-  opts.max_muts = 2;
-  opts.synth_weight = 4;
+  let opts = stage_opts();
   let total = cfg.budget(15_000, 300_000);
   let o = drive(cfg, "library", total, &known, || strategy(&opts), |c, st| interpret(&corpus, &opts, c, st), check);
   report.absorb("library", o);
   crate::c01cli::run_stage(cfg, &known, &corpus, &mut report);
   report.floor("nested_matches", 0.03, "evaluations");
+  crate::fuzz::stage(cfg, &mut report, &known, 20000);
   report.finish()
 }
